@@ -5,8 +5,8 @@ CONSTANTS
   ReqSeq <- MCReqSeq
   BFamily <- BFamAll
   Export = FALSE
-  CheckE4 = FALSE
-  Dev_S20_RuleOffRaises = TRUE
+  CheckE4 = TRUE
+  Dev_S20_RuleOffRaises = FALSE
   Dev_S20b_UnofferedSessionAsserts = FALSE
 INVARIANT TypeOK
 INVARIANT E4_NoRaise
